@@ -93,8 +93,9 @@ var jobTable = map[string]jobSet{
 			// 30 s in which the relay loses everything, and a client that
 			// does not reconnect: the server must not be left waiting for ever
 			{Scenario: "e2e/c2s=65535/s2c=1,100/outage=30s/noretry", Budgets: bs(B(0, 1)), Split: 1},
-			{Scenario: "e2e/c2s=65535/s2c=1,100/drop/kill", Budgets: bs(B(0, 2)), Split: 1},
 			{Scenario: "e2e/c2s=100,32768/s2c=65535/closer=server/drop/kill", Budgets: bs(B(0, 1)), Split: 1},
+			// (the large job last: it gets whatever is left of the budget)
+			{Scenario: "e2e/c2s=65535/s2c=1,100/drop/kill", Budgets: bs(B(0, 2)), Split: 1},
 		},
 		thorough: []Job{
 			{Scenario: "size-product(c2s: 2 of {1,2,100,32767,32768,32769,65534,65535}; s2c: 2 of {1,100,32768,65535})",
